@@ -10,6 +10,9 @@ for d in sorted(glob.glob(os.path.join(HERE, 'seeded', '*', 'meta.json'))):
     name = os.path.basename(os.path.dirname(d))
     m = json.load(open(d))
     r = res.get(name, {})
+    if m.get('obsolete'):
+        rows.append('| seeded/%s | %s | %s | - | obsolete: %s |' % (name, m.get('property'), (m.get('title') or '')[:80], m['obsolete'][:220].replace('|', '/')))
+        continue
     cells = []
     ok = bool(r.get('checks'))
     for prop, c in (r.get('checks') or {}).items():
